@@ -164,6 +164,57 @@ Theorem C07_retry_coord_judge_sound : forall holders t excluded self evs run abo
 Proof. exact retry_coord_ok_sound. Qed.
 Print Assumptions C07_retry_coord_judge_sound.
 
+(* WITH TIME (waitForStart's coordinator-timeout ticker next to the watcher's TssTimeout ticker; messages
+   carry arrival times, the relayer is watched until [horizon]; [wc] = what the watcher was told: the
+   coordinator in the first attempt, the empty id in the retried one).  For every timed stream whose
+   arrival times do not decrease, from every state and ticker deadline: what the relayer does AND how
+   its wait ends - still waiting / running at the horizon, or timed out, by which ticker - is what it is
+   on the coordinator's own messages alone.  Initiate / start / fail messages of other peers neither
+   move the relayer nor keep it waiting: they do not re-arm (or postpone) any ticker. *)
+Theorem C07_timed_only_coordinator_moves : forall wc c cto tto horizon msgs deadline st,
+  wc = None \/ wc = Some c ->
+  sorted_times msgs = true -> in_horizon horizon msgs = true ->
+  tw_run wc (Some c) cto tto horizon deadline st msgs
+  = tw_run wc (Some c) cto tto horizon deadline st (own_msgs c msgs).
+Proof. exact timed_only_coordinator_moves. Qed.
+Print Assumptions C07_timed_only_coordinator_moves.
+
+Theorem C07_timed_forged_only : forall wc c cto tto horizon msgs deadline st,
+  wc = None \/ wc = Some c ->
+  sorted_times msgs = true -> in_horizon horizon msgs = true ->
+  (forall x, In x msgs -> from_is c (snd x) = false) ->
+  tw_run wc (Some c) cto tto horizon deadline st msgs = tw_run wc (Some c) cto tto horizon deadline st [].
+Proof. exact timed_forged_only. Qed.
+Print Assumptions C07_timed_forged_only.
+
+(* a silent coordinator in the middle of any traffic of other peers: nothing is done and the wait ends
+   with the CoordinatorError at the coordinator timeout *)
+Theorem C07_timed_silent_coordinator : forall c cto tto horizon msgs,
+  sorted_times msgs = true -> in_horizon horizon msgs = true ->
+  (forall x, In x msgs -> from_is c (snd x) = false) ->
+  (cto < tto)%N -> (cto < horizon)%N ->
+  timed_first c cto tto horizon msgs = ([], TCoordTimeout).
+Proof. exact timed_silent_coordinator. Qed.
+Print Assumptions C07_timed_silent_coordinator.
+
+(* The judge of the timed cases (the real relayer is driven twice: with all messages and with the
+   coordinator's own messages only; both observations must be equal and every action caused by a
+   coordinator message) accepts the model, and what it accepts is what the property says. *)
+Theorem C07_timed_judge_model : forall wc c cto tto horizon msgs,
+  wc = None \/ wc = Some c ->
+  timed_ignored c horizon msgs
+    (tw_run wc (Some c) cto tto horizon cto Waiting msgs)
+    (tw_run wc (Some c) cto tto horizon cto Waiting (own_msgs c msgs)) = true.
+Proof. exact timed_ignored_model. Qed.
+Print Assumptions C07_timed_judge_model.
+
+Theorem C07_timed_judge_sound : forall c horizon msgs a b,
+  timed_ignored c horizon msgs a b = true ->
+  sorted_times msgs = true -> in_horizon horizon msgs = true ->
+  a = b /\ (forall o, In o (fst a) -> caused_spec c (map snd msgs) o).
+Proof. exact timed_ignored_sound. Qed.
+Print Assumptions C07_timed_judge_sound.
+
 (* Non-vacuity: three key holders listed in two orders elect the same coordinator; a ready stream
    with a duplicate, an outsider (7) and an excluded peer (2) yields a well-formed subset; a forged
    start and a forged fail are ignored while the coordinator's own messages act. *)
@@ -179,5 +230,16 @@ Example C07_nonvacuous :
   /\ retry_wait 1%N [MFail 2%N; MInitiate 1%N; MStart 0%N (Some [0]%N); MStart 1%N (Some [1; 3]%N); MFail 0%N; MFail 1%N]
      = (Running, [OReady 1%N; ORun [1; 3]%N])
   /\ retry_coord key [0; 1; 2; 3]%N 1%Z [2]%N 1%N [(false, 3); (true, 2); (false, 0); (true, 3)]%N = (Some [1; 3]%N, false)
-  /\ retry_coord_ok [0; 1; 2; 3]%N 1%Z [2]%N 1%N [(false, 3); (true, 2); (false, 0); (true, 3)]%N (Some [1; 3]%N) true = false.
+  /\ retry_coord_ok [0; 1; 2; 3]%N 1%Z [2]%N 1%N [(false, 3); (true, 2); (false, 0); (true, 3)]%N (Some [1; 3]%N) true = false
+  (* with time, coordinator 1, CoordinatorTimeout 300, TssTimeout 5000, watched for 2000 ms: forged traffic every
+     100 ms does not keep the relayer waiting (CoordinatorError at 300); the coordinator's own initiate message
+     at 100 moves the deadline to 400, so its start message at 350 is still obeyed; a relayer that was kept
+     waiting by the traffic is rejected by the judge *)
+  /\ sorted_times [(100, MInitiate 3); (200, MStart 3 (Some [3])); (300, MFail 3); (400, MInitiate 3)]%N = true
+  /\ timed_first 1%N 300 5000 2000 [(100, MInitiate 3); (200, MStart 3 (Some [3])); (300, MFail 3); (400, MInitiate 3)]%N
+     = ([], TCoordTimeout)
+  /\ timed_first 1%N 300 5000 2000 [(100, MInitiate 1); (200, MInitiate 3); (350, MStart 1 (Some [1; 3]))]%N
+     = ([OReady 1; ORun [1; 3]]%N, TRunning)
+  /\ timed_first 1%N 300 5000 2000 [(200, MInitiate 3); (350, MStart 1 (Some [1; 3]))]%N = ([], TCoordTimeout)
+  /\ timed_ignored 1%N 2000 [(100, MInitiate 3); (200, MInitiate 3); (300, MInitiate 3)]%N ([], TWaiting) ([], TCoordTimeout) = false.
 Proof. vm_compute. repeat split. Qed.
